@@ -56,10 +56,15 @@ func (s *synchronizer) sync(_ context.Context, res Response) (Response, bool, er
 		s.cycle.res.Ack = false
 	}
 
+	if s.cycle.res.Error == nil && res.Error != nil {
+		s.cycle.res.Error = res.Error
+	}
+
 	fulfilled := s.cycle.counter == s.nodeCount
 	if fulfilled {
 		s.cycle.counter = 0
+		return s.cycle.res, true, nil
 	}
 
-	return res, fulfilled, nil
+	return res, false, nil
 }
